@@ -14,6 +14,7 @@ import (
 	"go/ast"
 	"go/token"
 	"go/types"
+	"regexp"
 	"sort"
 	"strings"
 
@@ -36,6 +37,7 @@ type Flow struct {
 	boolDefs map[string]ast.Expr
 	assignCount map[string]int
 	mayReturn   func(*ast.CallExpr) bool
+	keyKind     map[string]string // "name@line" -> recv | int | error | bool | other
 }
 
 var noReturnCallees = map[string]bool{
@@ -346,7 +348,28 @@ func (fl *Flow) trackKey(e ast.Expr) string {
 			obj = o
 		}
 		if v, ok := obj.(*types.Var); ok && !v.IsField() && v.Pkg() != nil && v.Parent() != v.Pkg().Scope() {
-			return fmt.Sprintf("%s@%d", x.Name, fl.P.Fset.Position(v.Pos()).Line)
+			k := fmt.Sprintf("%s@%d", x.Name, fl.P.Fset.Position(v.Pos()).Line)
+			if fl.keyKind == nil {
+				fl.keyKind = map[string]string{}
+			}
+			if _, seen := fl.keyKind[k]; !seen {
+				kind := "other"
+				root := fl.Fn.Root()
+				if root.Decl != nil && root.Decl.Recv != nil && len(root.Decl.Recv.List) == 1 && len(root.Decl.Recv.List[0].Names) == 1 && fl.Pkg.Info.Defs[root.Decl.Recv.List[0].Names[0]] == types.Object(v) {
+					kind = "recv"
+				} else if b, ok := v.Type().Underlying().(*types.Basic); ok {
+					switch {
+					case b.Info()&types.IsInteger != 0:
+						kind = "int"
+					case b.Info()&types.IsBoolean != 0:
+						kind = "bool"
+					}
+				} else if types.Identical(v.Type(), types.Universe.Lookup("error").Type()) {
+					kind = "error"
+				}
+				fl.keyKind[k] = kind
+			}
+			return k
 		}
 		return x.Name
 	case *ast.SelectorExpr:
@@ -925,3 +948,24 @@ func (fl *Flow) Dominated(target Loc, event func(n ast.Node, s *Step) bool) (boo
 type cfg2Block = cfg.Block
 
 func cond2(e ast.Expr) ast.Expr { return e }
+
+var reLocalKey = regexp.MustCompile(`[A-Za-z_][A-Za-z0-9_]*@[0-9]+`)
+
+// NormKey rewrites a fact key so that it no longer depends on the spelling of
+// local names: the receiver becomes $r, other locals become $int, $bool,
+// $error or $v according to their type.
+func (fl *Flow) NormKey(key string) string {
+	return reLocalKey.ReplaceAllStringFunc(key, func(m string) string {
+		switch fl.keyKind[m] {
+		case "recv":
+			return "$r"
+		case "int":
+			return "$int"
+		case "bool":
+			return "$bool"
+		case "error":
+			return "$error"
+		}
+		return "$v"
+	})
+}
